@@ -340,6 +340,18 @@ def run(ctx, spec):
             h1 = [(v, t or "x") for v, t in h1]
             h2 = [(v, t or "y") for v, t in h2]
         check_combine(ctx, DP, h1, h2, merge, retention, comb)
+    # combine of entries holding many tied tags (ALL) and with MAX policy
+    for k in range(200):
+        n1, n2 = rng.randint(1, 6), rng.randint(1, 6)
+        v1, v2 = rng.randint(0, 2), rng.randint(0, 2)
+        h1 = [(v1, f"t{i}") for i in range(n1)] + [(v1 + rng.choice([1, 2]) * (1 if k % 2 else -1) * 0 + 3, "z")]
+        h2 = [(v2, f"u{i}") for i in range(n2)]
+        rng.shuffle(h1)
+        merge, retention = rng.choice(policies)
+        if merge == "MAX":
+            h1 = [(-v, t) for v, t in h1]
+            h2 = [(-v, t) for v, t in h2]
+        check_combine(ctx, DP, h1, h2, merge, retention, rng.choice(["sum", "sum_plus_tag", "diff"]))
     # random long histories with wider values
     for _ in range(spec["nrand"]):
         L = rng.randint(6, 40)
